@@ -265,6 +265,31 @@ def check_nodes(repo, res, fns):
                 res.inst("G-NODES", f"{fn.qualname}:{r.lineno} `{var}` received add_nodes_from on every path", ok)
                 if not ok:
                     res.add(mk_finding(PROP, "G-NODES", fn, r, f"{fn.qualname}: a path returns `{var}` without add_nodes_from having been called on it; nodes that end up in no edge would be missing from the generated network", role=var))
+    # the node set handed to add_nodes_from is the requested one, not a selection of it: a comprehension with a filter
+    # (reached through once-bound locals) drops the nodes the filter rejects - e.g. nodes of prescribed degree zero
+    n_args = 0
+    for fn in fns:
+        if fn.cls is not None:
+            continue
+        local = {}
+        for st in ast.walk(fn.node):
+            if isinstance(st, ast.Assign) and len(st.targets) == 1 and isinstance(st.targets[0], ast.Name):
+                local.setdefault(st.targets[0].id, []).append(st.value)
+        for c in ast.walk(fn.node):
+            if isinstance(c, ast.Call) and isinstance(c.func, ast.Attribute) and c.func.attr == "add_nodes_from" and c.args:
+                a = c.args[0]
+                hops = 0
+                while isinstance(a, ast.Name) and len(local.get(a.id, [])) == 1 and hops < 3:
+                    a = local[a.id][0]
+                    hops += 1
+                while isinstance(a, ast.Call) and getattr(a.func, "id", None) in ("list", "tuple", "set", "sorted") and a.args:
+                    a = a.args[0]
+                n_args += 1
+                filtered = isinstance(a, (ast.ListComp, ast.GeneratorExp, ast.SetComp)) and any(g.ifs for g in a.generators)
+                res.inst("G-NODES", f"{fn.qualname}:{c.lineno} add_nodes_from receives an unfiltered node collection", not filtered)
+                if filtered:
+                    res.add(mk_finding(PROP, "G-NODES", fn, c, f"{fn.qualname}: `{unparse(c, 50)}` registers a filtered selection (`{unparse(a, 70)}`) of the requested nodes; the nodes the filter rejects (for instance nodes whose prescribed degree is zero) are missing from the generated network", role="filtered"))
+    res.floor("add_nodes_from calls examined in the generators", n_args, 8)
     res.floor("public generators examined for the node set", n, 16)
 
 
